@@ -250,20 +250,47 @@ def run(ctx):
                           m.group(1), nm, "" if okp else " without check_explicit(%s)" % pred, " over a negated test" if neg else "", WANT[m.group(1)], pred))
     res.floor("R3.6", "quantified tests over r_ifs_all / r_unless / r_unless_all", nq, 3)
     reqs = vq.locals_named("required")
-    sets = [(i, s_) for i, j, s_ in vq.stmts() if s_["k"] == "assign" and s_["place"] in reqs and s_["rv"]["k"] == "use" and op_int(s_["rv"]["op"]) == 1]
-    res.floor("R3.6", "`required = true` sites in validate_required", len(sets), 3)
-    for i, s_ in sets:
+    res.floor("R3.6", "`required` local in validate_required", len(reqs), 1)
+    defs = [d for l in reqs for d in vq.def_sites(l)]
+    # within one candidate, `required` starts from its first definition and is afterwards only ever SET (never recomputed): the
+    # three sources (any of r_ifs, all of r_ifs_all, fails_arg_required_unless) are OR-ed
+    first = [d for d in defs if all(vq.block_dominates(d[0], e[0]) for e in defs)]
+    later = [d for d in defs if d not in first]
+    covered = set()
+    for d in first:
+        rv = d[3]
+        if isinstance(rv, dict) and rv["k"] == "use" and op_int(rv["op"]) == 0:
+            continue
+        e = expr(vq, {"cp": reqs[0]}) if not isinstance(rv, dict) else ""
+        if (not isinstance(rv, dict)) and rv.callee_q.endswith("::any") and re.search(r"\.r_ifs\)?$", expr(vq, rv.args[0])):
+            covered.add("r_ifs")
+        else:
+            res.violation("R3.6", "required-set|initial", "%s bb%d" % (vq.where(), d[0]), "`required` starts from %s — neither false nor any(r_ifs)" % (rv if isinstance(rv, dict) else rv.callee_q.rsplit("::", 1)[1]))
+    for d in later:
+        rv, i = d[3], d[0]
         gl = guard_strs(vq, i)
+        if not (isinstance(rv, dict) and rv["k"] == "use" and op_int(rv["op"]) == 1):
+            res.violation("R3.6", "required-set|overwritten", "%s bb%d" % (vq.where(), i),
+                          "`required` is recomputed (%s) after it may already have been set: an earlier matching required-if rule is forgotten (the rules are alternatives, they must be OR-ed)" % (
+                              rv.get("k") if isinstance(rv, dict) else rv.callee_q.rsplit("::", 1)[1] + "(" + expr(vq, rv.args[0])[-40:] + ")"))
+            continue
         if any(re.match(r"^T:check_explicit\(matcher,.*\.r_ifs\)\)#Some\.0\.0,ArgPredicate::Equals\(into\(.*\.r_ifs\)\)#Some\.0\.1\)\)\)$", g) for g in gl):
+            covered.add("r_ifs")
             res.ok("R3.6", "required-set|r_ifs", "%s bb%d" % (vq.where(), i), "any (other, val) of r_ifs with other == val explicitly")
         elif any(re.match(r"^T:all\(iter\(.*\.r_ifs_all\)", g) for g in gl):
+            covered.add("r_ifs_all")
             res.check(any(re.match(r"^F:is_empty\(.*\.r_ifs_all\)$", g) for g in gl), "R3.6", "required-set|r_ifs_all", "%s bb%d" % (vq.where(), i),
                       "all of r_ifs_all hold and the list is not empty", "an empty required_if_eq_all list makes the argument required")
         elif any(re.match(r"^T:fails_arg_required_unless\(", g) for g in gl):
+            covered.add("r_unless")
             res.ok("R3.6", "required-set|r_unless", "%s bb%d" % (vq.where(), i), "fails_arg_required_unless")
         else:
             res.violation("R3.6", "required-set|unrecognised", "%s bb%d" % (vq.where(), i),
                           "a conditional requirement is raised under %s — not one of: a matching r_ifs pair, all of r_ifs_all (non-empty), fails_arg_required_unless" % [g[:90] for g in gl[-2:]])
+    if defs and not any(i_["status"] == "violation" and i_["key"].startswith("R3.6|required-set") for i_ in res.items):
+        missing_src = {"r_ifs", "r_ifs_all", "r_unless"} - covered
+        res.check(not missing_src, "R3.6", "required-set|all-three-sources", vq.where(), "required-if-any, required-if-all and required-unless all feed `required`",
+                  "validate_required no longer raises a conditional requirement from %s" % sorted(missing_src))
     # candidates = arguments that are not explicitly present
     flt = [c for c in vq.calls_to(r"Iterator::filter$") if re.match(r"^get_arguments\(self\.cmd\)$", expr(vq, c.args[0]))]
     res.floor("R3.6", "get_arguments().filter in validate_required", len(flt), 1)
